@@ -174,6 +174,26 @@ Record cs_cfg := {
 Definition cs_is_hash (cfg : cs_cfg) (id : Z) : bool :=
   (0 <=? id) && (negb (cfg_strict_ids cfg) || (id <? 100)).
 
+(* the loop over sctx.GetSignedTransfers(): a recipient id IsHash refuses fails the transaction
+   (same rule as StateContext.AddTransfer applies to queued transfers) *)
+Fixpoint cs_apply_signed (cfg : cs_cfg) (sp : cs_stamp) (l : list cs_transfer)
+         (m : list (Z * cs_acct)) (ue : cs_umap) : cs_res (list (Z * cs_acct) * cs_umap) :=
+  match l with
+  | [] => ROk (m, ue)
+  | t :: tl =>
+      if negb (cs_is_hash cfg (tr_to t)) then RErr ErrBadTo
+      else
+        match cs_transfer_assert sp m t with
+        | ROk m' =>
+            let ue' := if tr_amt t =? 0 then ue
+                       else cs_put (tr_to t) (cs_user_of m' sp (tr_to t))
+                              (cs_put (tr_from t) (cs_user_of m' sp (tr_from t)) ue) in
+            cs_apply_signed cfg sp tl m' ue'
+        | RErr e => RErr e
+        | RPanic => RPanic
+        end
+  end.
+
 (* what the called contract did: an arbitrary oracle result *)
 Inductive cs_sc_result :=
 | SCOk (writes : list (Z * option Z)) (transfers signed : list cs_transfer)
@@ -229,7 +249,7 @@ Definition cs_finish (cfg : cs_cfg) (sp : cs_stamp) (tx : cs_txn)
     | RErr e => Rejected e
     | RPanic => Panicked
     | ROk (m1, ue1) =>
-        match cs_apply_transfers sp signed m1 ue1 with
+        match cs_apply_signed cfg sp signed m1 ue1 with
         | RErr e => Rejected e
         | RPanic => Panicked
         | ROk (m2, ue2) =>
